@@ -32,6 +32,8 @@ def run_edits(ctx, prop, only=None):
 
 
 def run(ctx):
+    # the snapshot dictionary (Tree.to_dict) is C15's subject: a change there does not touch the cached vectors of any tree
+    ctx.vc_filter = lambda name, kind: ".graph.to_dict." not in name
     try:
         from contracts import c06_layer1 as L
         from pyvc.source import Repo
@@ -40,6 +42,9 @@ def run(ctx):
     except ImportError:
         pass
     ctx.assume("rounding drift of repeated add/remove is outside A-REAL; the bounded check uses rtol 1e-9 / atol 1e-8")
-    ctx.extra["explanation"] = ("Bounded: after every operation of every enumerated edit sequence each node's cached log_p/log_r is compared with an independent from-scratch "
+    ctx.extra["explanation"] = ("Deductive (Layer 1, any tree size): TreeNode edits keep log_p / log_r as specified (add: both, remove: log_p only, list add: every grid to both), Tree pairs each edit with the path update "
+                                "from the right node, _update_node feeds a node exactly its children's log_r, _update_path_to_root walks the unique root path bottom-up, create_root_node / remove_subtree / add_subtree "
+                                "rewire and re-register consistently and recompute from the attachment point upwards, copy() shares nothing, relabelling keeps the maps consistent, from_dict rebuilds every node and "
+                                "recomputes last; the recursion itself is C02's. get_subtree and the library semantics of rustworkx are not under contract. Bounded: after every operation of every enumerated edit sequence each node's cached log_p/log_r is compared with an independent from-scratch "
                                 "recomputation, both joint densities with a freshly built tree.")
     run_edits(ctx, "C06", only=["fresh", "operation raised"])
